@@ -165,3 +165,62 @@ def shapes(traces):
                 n['staged_moves'] += sum(1 for x in e['links'] if x[3] == e['a3']) > 1
             n['shadowed_handles'] += any(len({k for l in ls for k, _h in l}) < sum(len(l) for l in ls) for _m, ls in e['layers'])
     return {'max': mx, 'events_with': {k: int(v) for k, v in n.items()}}
+
+
+def repo_tests_validate(res, node='tests'):
+    """Pipeline B on the repository's own tests: the suite runs unmodified under harness/pytest_resrecorder.py; every
+    test that uses ResourceMap / Handle / get_static_map() yields one trace over its own universe (its maps, handles
+    and key parts; the tree its fixtures built is the initial state) and is validated by TLC against
+    ResourcesTrace.tla with every invariant of Resources.tla on.  One TLC run per test (side by side)."""
+    from concurrent.futures import ThreadPoolExecutor
+    from .. import tracecheck, replay as _rp
+    if _rp.REPLAY is not None:
+        return
+    out = os.path.join(res.scratch, 'repo_resource_tests.json')
+    env = dict(os.environ, VERIF_TRACE_OUT_RES=out, PYTHONPATH=common.VERIF + os.pathsep + os.environ.get('PYTHONPATH', ''))
+    p = subprocess.run(['/venv/bin/python', '-m', 'pytest', '-q', '-p', 'no:cacheprovider', '-p', 'harness.pytest_resrecorder', node],
+                       cwd=common.REPO, env=env, stdout=subprocess.PIPE, stderr=subprocess.STDOUT, text=True, timeout=600)
+    if not os.path.exists(out):
+        raise common.MachineryError('recording the repository resource tests failed:\n' + p.stdout[-2000:])
+    with open(out) as f:
+        recs = json.load(f)
+    usable = [r for r in recs if not r['unsupported'] and r['events']]
+    cov = res.cov.setdefault('trace_validation', {})
+    cov['repository-tests'] = {'node': node, 'pytest_tail': p.stdout.strip().split('\n')[-1], 'tests_recorded': len(usable),
+                               'tests': [r['test'] for r in usable], 'events': sum(len(r['events']) for r in usable),
+                               'per_action': op_counts(usable),
+                               'unsupported': {r['test']: r['unsupported'] for r in recs if r['unsupported']}}
+    if not usable:
+        return
+
+    def one(k):
+        r = usable[k]
+        K = dict(MapOrder=r['MapOrder'], Hd=r['Hd'], Names=r['Names'], MaxDepth=r['MaxDepth'], MaxLayers=r['MaxLayers'],
+                 MaxGen=1000000, KindSeq=({h: 'list' for h in r['Hd']},), ClsSeq=(r['cls'],))
+        gen = 'ResourcesTrace_repo%d' % k
+        consts, ov = write_module(res, gen, K)
+        t = {'ki': 1, 'ci': 1, 'fresh': False, 'init': r['init'], 'events': r['events']}
+        return t, tracecheck.validate(res, gen, 'repo%d' % k, [t], consts, overrides=ov, invariants=INVARIANTS, shards=1)
+
+    with ThreadPoolExecutor(8) as ex:
+        results = list(ex.map(one, range(len(usable))))
+    rejected = 0
+    for r, (t, rej) in zip(usable, results):
+        rejected += bool(rej)
+        _report(res, 'repository test %s' % r['test'], [t], rej, {'test': r['test']})
+    res.traces += len(usable) - rejected
+    cov['repository-tests'].update(accepted=len(usable) - rejected, rejected=rejected)
+    # self-test: one observation of the longest recorded test altered
+    k = max(range(len(usable)), key=lambda i: len(usable[i]['events']))
+    if not results[k][1]:
+        bad, at = corrupt(results[k][0])
+        if bad is not None:
+            r = usable[k]
+            K = dict(MapOrder=r['MapOrder'], Hd=r['Hd'], Names=r['Names'], MaxDepth=r['MaxDepth'], MaxLayers=r['MaxLayers'],
+                     MaxGen=1000000, KindSeq=({h: 'list' for h in r['Hd']},), ClsSeq=(r['cls'],))
+            consts, ov = write_module(res, 'ResourcesTrace_repobad', K)
+            r2 = tracecheck.validate(res, 'ResourcesTrace_repobad', 'repo-corrupted', bad, consts, overrides=ov, shards=1)
+            cov['repository-tests']['corrupted_trace_rejected_at_event'] = r2[0][1] if r2 else None
+            if not (len(r2) == 1 and r2[0][1] == at):
+                raise common.MachineryError('trace validation accepted a corrupted repository-test trace: %r (corrupted event %d)'
+                                            % (r2, at))
